@@ -45,8 +45,9 @@ def _switch_facts(body, s, reaching, depth, _cache):
         facts.add(("enum", src[1]["enum"], frozenset(names), subj))
         # a stored decision (`let kind = classify(..); match kind { .. }` with a private enum): the value is one of `names`, so it was
         # built at one of the constructions of those variants - what holds at all of them holds here
-        if depth < 3 and subj is not None and not subj[1] and _is_plain_enum(src[1]["enum"]):
-            contrib = _enum_def_sites(body, subj[0], names)
+        wrap = _wrapper_depth(subj[1]) if subj is not None else None
+        if depth < 3 and subj is not None and wrap is not None and _is_plain_enum(src[1]["enum"]):
+            contrib = _enum_def_sites(body, subj[0], names, wrap, src[1]["enum"])
             if contrib:
                 inter = None
                 for bi in contrib:
@@ -202,31 +203,77 @@ def _is_plain_enum(ty):
     return ty.startswith(("s3s::", "s3s_fs::", "s3s_policy::", "s3s_aws::"))
 
 
-def _enum_def_sites(body, l, names):
-    """blocks that construct the enum value held in local l with one of the variants `names`; None when some definition is not a
-    construction (or a copy of one)"""
+GOOD_WRAPPERS = ("Some", "Ok", "Continue", "Ready")
+BAD_WRAPPERS = ("None", "Err", "Break", "Pending")
+
+
+def _wrapper_depth(proj):
+    """number of `(as Some/Ok/Continue/Ready).0` layers in a normalised projection; None if it contains anything else"""
+    n = 0
+    i = 0
+    pr = list(proj)
+    while i < len(pr):
+        if pr[i][0] == "dc" and i + 1 < len(pr) and pr[i + 1][0] == "f" and pr[i + 1][1] == 0:
+            n += 1
+            i += 2
+            continue
+        return None
+    return n
+
+
+def _enum_def_sites(body, l, names, wrap=0, enum_ty=""):
+    """blocks that construct the enum value found `wrap` layers (Some / Ok / Continue / Ready) inside local l with one of the variants
+    `names`; None when some definition is not a construction, a copy, a `?` / payload-preserving adaptor, or `.map(Variant)`"""
+    base = enum_ty.split("<")[0]
     out = []
-    stack = [(l, 0)]
+    stack = [(l, wrap, 0)]
     seen = set()
     while stack:
-        l2, dep = stack.pop()
-        if l2 in seen:
+        l2, w, dep = stack.pop()
+        if (l2, w) in seen:
             continue
-        seen.add(l2)
+        seen.add((l2, w))
         ds = body.defs().get(l2, [])
-        if not ds or (1 <= l2 <= body.argc):
+        if not ds or (1 <= l2 <= body.argc) or dep > 12:
             return None
         for df in ds:
             if df["kind"] == "mutarg" or df.get("proj"):
                 return None
-            if df["kind"] != "assign":
-                return None
-            rv = df["rv"]
-            if rv["k"] == "agg" and rv.get("agg") == "adt" and rv.get("variant") is not None:
-                if rv["variant"] in names:
-                    out.append(df["bi"])
-            elif rv["k"] == "use" and isinstance(rv["ops"][0], dict) and "p" in rv["ops"][0] and not rv["ops"][0]["p"]["proj"] and dep < 5:
-                stack.append((rv["ops"][0]["p"]["l"], dep + 1))
+            if df["kind"] == "assign":
+                rv = df["rv"]
+                if rv["k"] == "agg" and rv.get("agg") == "adt" and rv.get("variant") is not None:
+                    if w == 0:
+                        if rv["variant"] in names:
+                            out.append(df["bi"])
+                    elif rv["variant"] in GOOD_WRAPPERS and rv["ops"] and isinstance(rv["ops"][0], dict) and "p" in rv["ops"][0] and not rv["ops"][0]["p"]["proj"]:
+                        stack.append((rv["ops"][0]["p"]["l"], w - 1, dep + 1))
+                    elif rv["variant"] in BAD_WRAPPERS:
+                        pass        # carries no value of the enum
+                    else:
+                        return None
+                elif rv["k"] == "use" and isinstance(rv["ops"][0], dict) and "p" in rv["ops"][0]:
+                    q = rv["ops"][0]["p"]
+                    k = _wrapper_depth(flow.norm_proj(q["proj"]))
+                    if k is None:
+                        return None
+                    stack.append((q["l"], w + k, dep + 1))
+                else:
+                    return None
+            elif df["kind"] == "call":
+                t = df["term"]
+                d = callee_def(t)
+                a0 = t["args"][0] if t["args"] else None
+                if d.endswith("::ops::try_trait::FromResidual::from_residual"):
+                    continue        # the failure of an inner `?`: None / Err, no value of the enum
+                if (d.endswith("::ops::try_trait::Try::branch") or d in flow.PAYLOAD_PRESERVING) and isinstance(a0, dict) and "p" in a0 and not a0["p"]["proj"]:
+                    stack.append((a0["p"]["l"], w, dep + 1))
+                elif d in ("core::option::Option::<T>::map", "core::result::Result::<T, E>::map") and w == 1 and len(t["args"]) == 2 and \
+                        isinstance(t["args"][1], dict) and t["args"][1].get("c") == "fn" and str(t["args"][1].get("def", "")).startswith(base + "::"):
+                    # `.map(Enum::Variant)`: whatever value comes out was built by that variant's constructor, here
+                    if str(t["args"][1]["def"]).rsplit("::", 1)[-1] in names:
+                        out.append(df["bi"])
+                else:
+                    return None
             else:
                 return None
     return out
